@@ -81,7 +81,8 @@ Theorem C05_headers_parse :
   hdr_parses c_messageTypeCallResContinue [] /\ hdr_parses c_messageTypeCallReqContinue [].
 Proof. exact headers_parse. Qed.
 
-(* ONE OUTCOME (partial).  Wanted: for every input (also hostile fragments) the caller sees
+(* ONE OUTCOME (partial; superseded by C05_one_outcome / C05_success_is_denotation below, which
+   cover hostile fragments and arbitrary scripts).  Wanted: for every input (also hostile fragments) the caller sees
    exactly one terminal event, success xor error, and nothing after an error succeeds.
    Proved here: once the reader's error is set (any state, any input), every later argument
    read returns that error, no data, and does not change the state.  That every error CODE
@@ -280,6 +281,30 @@ Theorem C05_budget_bounds : forall now now' od ct,
   (od = None -> ct <= 0 -> connect_ctx now od ct = None /\ handshake_deadline now now' od ct = now' + 5000000000).
 Proof. exact budget_bounds. Qed.
 
+(* SUCCESS ON HOSTILE INPUT IS A DENOTATION.  For ANY fragment list that passed the parser: if
+   the caller's three helper reads all succeed, the list splits into the consumed fragments
+   [pre] and an untouched rest; [pre] is a well-formed message (each fragment has a chunk, the
+   more-fragments flag is set on all but the last) whose every checksum verified; and the
+   arguments returned are exactly what [pre] denotes by the protocol document (Spec/FragSpec.v).
+   So a partial, altered or foreign response is reported as success only if it carries
+   valid running checksums over a complete message (C02 bounds how likely that is). *)
+Theorem C05_success_is_denotation : forall n1 n2 n3 fs args, 0 < n1 -> 0 < n2 -> 0 < n3 ->
+  Forall frag_parsed fs -> call_outcome n1 n2 n3 fs = OOk args ->
+  exists pre post c0, fs = pre ++ post /\ wf pre /\ ck_new (first_ctype pre) = Some c0 /\ ck_chain c0 pre /\
+    f_more (last pre dfrag) = false /\ args = denote (chunks_of pre).
+Proof. exact hostile_success_denote. Qed.
+
+(* ... end to end for ARBITRARY peer bytes: the receiving side of a call (frame loop, dispatch
+   by id, fragment parser, reader, helper reads) reports success only with the denotation of a
+   checksum-verified well-formed message among the fragments the stream delivered *)
+Theorem C05_stream_success_is_denotation : forall id mt0 mtc n1 n2 n3 stream args, 0 < n1 -> 0 < n2 -> 0 < n3 ->
+  bytes_ok stream = true -> recv_outcome id mt0 mtc n1 n2 n3 stream = OOk args ->
+  exists pre post c0, delivered id mt0 mtc stream = pre ++ post /\ wf pre /\ ck_new (first_ctype pre) = Some c0 /\
+    ck_chain c0 pre /\ f_more (last pre dfrag) = false /\ args = denote (chunks_of pre).
+Proof. exact hostile_stream_success. Qed.
+
+Print Assumptions C05_success_is_denotation.
+Print Assumptions C05_stream_success_is_denotation.
 Print Assumptions C05_parser_output_parsed.
 Print Assumptions C05_one_outcome.
 Print Assumptions C05_complete_absorbing.
@@ -319,6 +344,12 @@ Example C05_example_hostile :
   (* without the parser's guarantee the model DOES panic (unknown checksum type 9): the premise is needed *)
   r_trace [RBegin false] (r_init [mkFrag false 9 [] [[1]]]) = None.
 Proof. vm_compute. repeat split; reflexivity. Qed.
+
+(* the success on the list with trailing fragments is the denotation of its verified prefix *)
+Example C05_example_denotation :
+  call_outcome 512 512 512 hx_trailing = OOk (denote (chunks_of hx_good)) /\ hx_trailing = hx_good ++ hx_good /\
+  ck_chain (mkCk 1 0) hx_good /\ denote (chunks_of hx_trailing) <> denote (chunks_of hx_good).
+Proof. split; [vm_compute; reflexivity|]. split; [reflexivity|]. split; [apply seal_chain|]. vm_compute. discriminate. Qed.
 
 (* arbitrary bytes as a peer stream: garbage, and a valid stream with garbage appended, at all offsets *)
 Example C05_example_hostile_stream :
